@@ -32,6 +32,16 @@ func init() {
 	props["C16-cyclic-probe"] = func(c *Ctx) { c16CyclicProbe() }
 }
 
+// c16Model: the model variant the real code is tied to.  `asis` mirrors /repo today; after the fix:
+// commits have landed (and `Defects.asIs` has been flipped) or for a self-test against a patched copy
+// (VERIF_REPO=… VERIF_C16_MODEL=repaired bin/check C16) it is `repaired`.
+func c16Model() string {
+	if m := os.Getenv("VERIF_C16_MODEL"); m == "repaired" {
+		return m
+	}
+	return "asis"
+}
+
 // ZCyc embeds a pointer to itself: legal Go, and conf.FieldsFromStruct recurses through it without end.
 type ZCyc struct {
 	Name string
@@ -402,8 +412,8 @@ func runC16(c *Ctx) {
 			real = realTableCanon(conf.CreateTypesTable(e.Val))
 		}()
 		tcs = append(tcs, tblCase{e, real})
-		reqs = append(reqs, L(A("c16-table"), A("asis"), envSx(e.Val)).String())
-		reqs = append(reqs, L(A("c16-table"), A("asis-rev"), envSx(e.Val)).String())
+		reqs = append(reqs, L(A("c16-table"), A(c16Model()), envSx(e.Val)).String())
+		reqs = append(reqs, L(A("c16-table"), A(c16Model()+"-rev"), envSx(e.Val)).String())
 	}
 	resp, err := c.AskAll(reqs)
 	if err != nil {
@@ -517,7 +527,7 @@ func runC16(c *Ctx) {
 			}
 		}
 		ncs = append(ncs, nameCase{e, names})
-		req := []*Sx{A("c16-names"), A("asis"), envSx(e.Val)}
+		req := []*Sx{A("c16-names"), A(c16Model()), envSx(e.Val)}
 		for _, n := range names {
 			req = append(req, SStr(n))
 		}
@@ -540,7 +550,7 @@ func runC16(c *Ctx) {
 	// the repaired model must satisfy the property on the same probes (guards the theorem statements:
 	// a failure here means `Defects.repaired` is not a repair)
 	for i := range reqs {
-		reqs[i] = strings.Replace(reqs[i], "(c16-names asis ", "(c16-names repaired ", 1)
+		reqs[i] = strings.Replace(reqs[i], "(c16-names "+c16Model()+" ", "(c16-names repaired ", 1)
 	}
 	resp, err = c.AskAll(reqs)
 	if err != nil {
@@ -589,6 +599,18 @@ func runC16(c *Ctx) {
 			c.R.Mismatch("generator", k, "", "counter is zero")
 		}
 	}
+}
+
+// dynFuncType: the type of the function held in the interface-typed struct field `name`, if any.
+func dynFuncType(env interface{}, name string) reflect.Type {
+	if !holdsFunc(env, name) {
+		return nil
+	}
+	v := reflect.ValueOf(env)
+	for v.Kind() == reflect.Ptr {
+		v = v.Elem()
+	}
+	return v.FieldByName(name).Elem().Type()
 }
 
 // holdsFunc: does the struct field `name` of env (through embedding) hold a function in an interface?
@@ -671,6 +693,8 @@ func c16TopLevel(c *Ctx, e zooEnv, names []string, rows []*Sx) {
 			realIdent = "ambiguous"
 		case strings.Contains(rv.cerr, "unknown name"):
 			realIdent = "unknown"
+		case strings.Contains(rv.cerr, "can only be called"):
+			realIdent = "method-value"
 		default:
 			realIdent = "other: " + rv.cerr
 		}
@@ -750,7 +774,8 @@ func c16TopLevel(c *Ctx, e zooEnv, names []string, rows []*Sx) {
 				Expect: "value of type " + fmt.Sprint(rv.ty), Got: fmt.Sprintf("%T", rv.out)})
 		}
 		// ---- oracle: Go resolves an exported member unambiguously => accepted (struct environments)
-		if isStructEnv && fieldFound && exported && !rv.accepted {
+		// (when a method of the same name is in the method set, Go's selector denotes the method, not the field)
+		if isStructEnv && fieldFound && exported && !methodFound && !rv.accepted {
 			key, what := "c16:resolvable-field-rejected", "exported field that Go resolves is rejected by the checker"
 			if strings.Contains(rv.cerr, "ambiguous") {
 				if depth == 0 {
@@ -792,6 +817,9 @@ func c16TopLevel(c *Ctx, e zooEnv, names []string, rows []*Sx) {
 			ft = ft.Elem()
 		}
 		args, ok := callArgs(ft, skip)
+		if dft := dynFuncType(e.Val, name); ok && ft.Kind() == reflect.Interface && dft != nil {
+			args, ok = callArgs(dft, 0)
+		}
 		if !ok {
 			c.R.Count("call:skipped-no-args", 1)
 			continue
@@ -808,7 +836,10 @@ func c16TopLevel(c *Ctx, e zooEnv, names []string, rows []*Sx) {
 		if cv.accepted {
 			c.R.Count("call:accepted", 1)
 			mFetchFn := row[4]
-			if cv.ran != mFetchFn.IsL {
+			// a slot of interface type holding a non-function: whether the call works is a matter of the
+			// dynamic value, not of name resolution
+			dynamicOnly := ft.Kind() == reflect.Interface && isStructEnv && dynFuncType(e.Val, name) == nil
+			if !dynamicOnly && cv.ran != mFetchFn.IsL {
 				c.R.Mismatch("c16/call-run", in.Env+" "+src, mFetchFn.String(), fmt.Sprintf("ran=%v err=%s", cv.ran, cv.rerr))
 			}
 			if !cv.ran {
@@ -927,7 +958,7 @@ func c16Nested(c *Ctx, envs []zooEnv) {
 				}
 			}
 			mcs = append(mcs, memCase{e, r.path, r.t, names})
-			req := []*Sx{A("c16-member"), A("asis"), tySx(r.t)}
+			req := []*Sx{A("c16-member"), A(c16Model()), tySx(r.t)}
 			for _, n := range names {
 				req = append(req, SStr(n))
 			}
@@ -951,7 +982,7 @@ func c16Nested(c *Ctx, envs []zooEnv) {
 	}
 	// the repaired model on the same member probes
 	for i := range reqs {
-		reqs[i] = strings.Replace(reqs[i], "(c16-member asis ", "(c16-member repaired ", 1)
+		reqs[i] = strings.Replace(reqs[i], "(c16-member "+c16Model()+" ", "(c16-member repaired ", 1)
 	}
 	resp, err = c.AskAll(reqs)
 	if err != nil {
@@ -1100,6 +1131,18 @@ func c16Member(c *Ctx, e zooEnv, path string, rt reflect.Type, name string, row 
 		ft = ft.Elem()
 	}
 	args, ok := callArgs(ft, skip)
+	var recvVal interface{}
+	if ft.Kind() == reflect.Interface {
+		recvVal = compileRun(path, e.Val).out
+	}
+	dynamicOnly := false
+	if ok && ft.Kind() == reflect.Interface && recvVal != nil {
+		if dft := dynFuncType(recvVal, name); dft != nil {
+			args, ok = callArgs(dft, 0)
+		} else {
+			dynamicOnly = true // interface slot holding a non-function: a matter of the dynamic value
+		}
+	}
 	if !ok {
 		c.R.Count("membercall:skipped-no-args", 1)
 		return
@@ -1114,8 +1157,12 @@ func c16Member(c *Ctx, e zooEnv, path string, rt reflect.Type, name string, row 
 	callable := ft.Kind() == reflect.Func && ft.NumOut() == 1
 	if cv.accepted {
 		c.R.Count("membercall:accepted", 1)
-		if base.Kind() != reflect.Map && cv.ran != row[4].IsL {
+		if base.Kind() != reflect.Map && !dynamicOnly && cv.ran != row[4].IsL {
 			c.R.Mismatch("c16/membercall-run", e.Name+" "+csrc+" : "+rt.String(), row[4].String(), fmt.Sprintf("ran=%v err=%s", cv.ran, cv.rerr))
+		}
+		if !cv.ran && ft.Kind() == reflect.Interface && !dynamicOnly && base.Kind() == reflect.Struct {
+			c.R.Violate(Violation{What: "function held in a struct field of interface type is accepted as callable, but FetchFn returns the interface-kinded field and reflect's Call refuses it",
+				Key: "c16:func-in-interface-field-not-callable", Input: cin, Expect: "call succeeds", Got: cv.rerr})
 		}
 		if !cv.ran && ft.Kind() == reflect.Func {
 			key, what := "c16:accepted-method-not-callable", "method or func member accepted by the checker cannot be called at run time"
